@@ -70,7 +70,37 @@ def run(res, tier):
                     if not noti and p.kind == "return" and E.feasible(p.cond, flag):
                         fn = mprop.write_cex(res, "change_without_notify_%d" % n, p, E, "no notify although update() returned true")
                         res.violation("mir:change-without-notify", "data set changed but no notification sent", fn)
-    res.distinct += n_fail + n_ok
+    # ---- what happens before the outcome is known: mark_update_start may only record the start time ----
+    hist_fields = mir.struct_fields("PayloadHistory", "src/payload/history.rs")
+    mb = E.prog.find("src/payload/history.rs", "SharedHistory", "mark_update_start")
+    res.functions.append("routinator::payload::history::SharedHistory::mark_update_start (MIR, %d blocks)" % len(mb.blocks))
+    mpaths = E.explore(mb, max_visits=2)
+    ALLOWED_CALLS = r"(SharedHistory::write|Utc::now|DerefMut::deref_mut|Deref::deref)$"
+    n_ms = 0
+    for i, p in enumerate(mpaths):
+        if p.kind != "return":
+            continue
+        n_ms += 1
+        other = [e.name for e in p.events if e.kind == "call" and not re.search(ALLOWED_CALLS, e.name)]
+        wr = []
+        for loc, at in p.writes:
+            fld = None
+            for part in loc:
+                if isinstance(part, tuple) and part[0] == "f":
+                    fld = hist_fields[part[1]] if part[1] < len(hist_fields) else str(part[1])
+                    break
+            wr.append(fld)
+        bad_w = [w for w in wr if w != "last_update_start"]
+        if other or bad_w:
+            fn = mprop.write_cex(res, "mark_update_start_%d" % i, p, E,
+                                 "mark_update_start (called before the run's outcome is known) does more than record "
+                                 "the start time: calls %s, writes %s" % (other, bad_w))
+            res.violation("mir:mark-update-start-mutates-history",
+                          "SharedHistory::mark_update_start, which also runs before a FAILED validation run, "
+                          "touches served state (calls %s, writes %s)" % (other, bad_w), fn)
+    if n_ms == 0:
+        res.inconclusive.append("vacuity: mark_update_start has no returning path")
+    res.distinct += n_fail + n_ok + n_ms
     res.extra["paths"] = len(paths)
     res.extra["paths_failed_run"] = n_fail
     res.extra["paths_ok_run"] = n_ok
